@@ -34,7 +34,7 @@ def calibrate():
 def strategy(tier):
     aux = st.fixed_dictionaries({"seed": st.integers(0, 20), "blocks": st.booleans(), "special": st.booleans(),
                                  "symbols": st.booleans()})
-    return st.tuples(Lm.case_st(tier, pdata=True), aux).map(lambda t: {**t[0], "aux": t[1]})
+    return st.tuples(Lm.case_st(tier, pdata=True, ivs=True), aux).map(lambda t: {**t[0], "aux": t[1]})
 
 
 def budget(tier):
@@ -118,6 +118,9 @@ def evaluate(spec):
     if err is not None:
         out.fail("C05.apply-raises", exc_kind(err), repr(err)[:300])
     else:
+        # (puts byte intervals back into listing order when the closing
+        # re-layout scrambled them: finding C01-layout-reorders-intervals)
+        Lm.Observed(built)
         for kind, detail in Ob.validate_ir(built.ir, original_blocks=set(built.blocks.values()), self_loop_blocks=built.self_loops):
             out.fail("C05.valid", kind, detail)
     # faults: every k
